@@ -6,7 +6,7 @@ The attribute loop OVERWRITES a repeated attribute (finding F-C08-4: `a int DEFA
 statement therefore carries a hypothesis on the CONSUMED RUN of tokens `used` (the column definition as the parser delimits it):
 
   `AttrOK c used`: each of the six attribute keywords that store text — `CHARACTER` (SET), `COLLATE`, `DEFAULT`, `COMMENT`,
-  `ON` (UPDATE), `GENERATED` — occurs at most once among the top-level tokens of `used` (and not at all when the accumulator
+  (ON) `UPDATE`, `GENERATED` — occurs at most once among the top-level tokens of `used` (and not at all when the accumulator
   `c` has the attribute already).  For the empty accumulator of `pDefCol`: `NoRep used` = every count ≤ 1.
 
 The flags (`NOT NULL`, `NULL`, `AUTO_INCREMENT`, `UNSIGNED`, `ZEROFILL`) may repeat: they store no text, the words are grammar words.
@@ -38,11 +38,11 @@ def b2n (b : Bool) : Nat := if b then 1 else 0
 def AttrOK (c : DefCol) (us : List Tok) : Prop :=
   cnt "CHARACTER" us + b2n c.charset.isSome ≤ 1 ∧ cnt "COLLATE" us + b2n c.collate.isSome ≤ 1 ∧
   cnt "DEFAULT" us + b2n c.default.isSome ≤ 1 ∧ cnt "COMMENT" us + b2n c.comment.isSome ≤ 1 ∧
-  cnt "ON" us + b2n c.onUpdate.isSome ≤ 1 ∧ cnt "GENERATED" us + b2n c.generated.isSome ≤ 1
+  cnt "UPDATE" us + b2n c.onUpdate.isSome ≤ 1 ∧ cnt "GENERATED" us + b2n c.generated.isSome ≤ 1
 /-- the hypothesis for a whole column definition: no attribute keyword twice -/
 def NoRep (us : List Tok) : Bool :=
   decide (cnt "CHARACTER" us ≤ 1) && decide (cnt "COLLATE" us ≤ 1) && decide (cnt "DEFAULT" us ≤ 1) && decide (cnt "COMMENT" us ≤ 1) &&
-  decide (cnt "ON" us ≤ 1) && decide (cnt "GENERATED" us ≤ 1)
+  decide (cnt "UPDATE" us ≤ 1) && decide (cnt "GENERATED" us ≤ 1)
 theorem NoRep_sfx {a b : List Tok} (h : NoRep (a ++ b) = true) : NoRep b = true := by
   simp only [NoRep, Bool.and_eq_true, decide_eq_true_eq, cnt_append] at h ⊢
   omega
@@ -92,7 +92,7 @@ theorem attr_comment {c : DefCol} {kws u1 u2 : List Tok} (x : String) (hk : ∃ 
     | none => rfl
     | some y => simp [hx, b2n] at h; omega
   · simp only [Option.isSome_some, b2n, if_true]; simp only [b2n] at h; omega
-theorem attr_onUpdate {c : DefCol} {kws u1 u2 : List Tok} (x : Expr) (hk : ∃ t ∈ kws, t.srcEqUp "ON" = true)
+theorem attr_onUpdate {c : DefCol} {kws u1 u2 : List Tok} (x : Expr) (hk : ∃ t ∈ kws, t.srcEqUp "UPDATE" = true)
     (h : AttrOK c (kws ++ (u1 ++ u2))) : c.onUpdate = none ∧ AttrOK { c with onUpdate := some x } u2 := by
   have hp := cnt_pos hk
   simp only [AttrOK, cnt_append] at h ⊢
@@ -302,7 +302,7 @@ theorem defColLoop_acc (T : List String) (d : Gen.D) (f : Nat) : ∀ g c ts c' r
         obtain ⟨u1, e1, ha⟩ := ar_used (hF.pCompute _) hp (pCompute_consumes d f _ _ _ hp)
         have ih1 := ih _ _ _ _ h
         refine qd_step (kws := [x, y]) (u1 := u1) (by rw [e, e1]; simp) (fun u2 hA => ?_) ih1
-        obtain ⟨hn, hA2⟩ := attr_onUpdate v ⟨x, by simp, hx⟩ hA
+        obtain ⟨hn, hA2⟩ := attr_onUpdate v ⟨y, by simp, hy⟩ hA
         refine ⟨hA2, fun hf => ?_⟩
         obtain ⟨f1, f2⟩ := fl_onUpdate v hn hf
         refine ⟨f2, fun hs => ?_⟩
